@@ -28,3 +28,4 @@ import Mahotas.Proofs.CScalarTies.Find2d
 import Mahotas.Proofs.CScalarTies.Find2dAcc
 import Mahotas.Proofs.CScalarTies.Spline
 import Mahotas.Proofs.CScalarTies.CurRank
+import Mahotas.Proofs.CScalarTies.DtIntersect
